@@ -113,7 +113,6 @@ def decisive (v : Int) : Int := if v > Facts.winThreshold then 1 else if v < -Fa
 
 def handleSearch : Handler := fun st op args =>
   match op, args with
-  | "case", _ => some ({ st with search := {} }, "ok")
   -- fresh engine, one Analyze; optional cancellation inside the k-th leaf evaluation
   | "search", ctok :: ptok :: rest =>
     let k := match rest with | [k] => k.toNat?.getD 0 | _ => 0
